@@ -5,6 +5,8 @@ import math
 import numpy as np
 from hypothesis import strategies as st
 
+from ..core import sampled_from  # noqa: E402
+
 from .. import build, datagen, meshgen, writers
 from .. import sphere as S
 from ..core import Failure
@@ -38,7 +40,7 @@ GAP = 1e-9
 
 @st.composite
 def _mesh(draw, big, solids=True):
-    fam = draw(st.sampled_from(["hull", "hull", "voronoi-centres", "latlon", "solid", "solid"] if solids else ["hull", "voronoi-centres", "latlon"]))
+    fam = draw(sampled_from(["hull", "hull", "voronoi-centres", "latlon", "solid", "solid"] if solids else ["hull", "voronoi-centres", "latlon"]))
     if fam == "hull":
         m = draw(meshgen.hull_mesh(4, 26 if big else 12, partial=True))
     elif fam == "voronoi-centres":
@@ -56,30 +58,30 @@ def _mesh(draw, big, solids=True):
 def _case(draw, tier):
     big = tier != "quick"
     src = draw(_mesh(big))
-    same = draw(st.sampled_from([False, False, True]))
+    same = draw(sampled_from([False, False, True]))
     dst = src if same else draw(_mesh(big))
-    kind = draw(st.sampled_from(["nodes", "edge centers", "face centers"]))
+    kind = draw(sampled_from(["nodes", "edge centers", "face centers"]))
     return {
         "src": src,
         "dst": None if same else dst,
         "kind": kind,
-        "remap_to": draw(st.sampled_from(["nodes", "edge centers", "face centers"])),
-        "coord_type": draw(st.sampled_from(["spherical", "cartesian"])),
-        "method": draw(st.sampled_from(["nn", "nn", "idw"])),
+        "remap_to": draw(sampled_from(["nodes", "edge centers", "face centers"])),
+        "coord_type": draw(sampled_from(["spherical", "cartesian"])),
+        "method": draw(sampled_from(["nn", "nn", "idw"])),
         "k": draw(st.integers(2, 8)),
-        "power": draw(st.sampled_from([0.5, 1, 2, 2, 3, 5])),
+        "power": draw(sampled_from([0.5, 1, 2, 2, 3, 5])),
         "lead": draw(st.lists(st.integers(1, 3), max_size=2)),
-        "dtype": draw(st.sampled_from(["float64", "float64", "float32", "int64"])),
+        "dtype": draw(sampled_from(["float64", "float64", "float32", "int64"])),
         "seed": draw(st.integers(0, 2**31 - 1)),
         "materialise_edges_first": draw(st.booleans()),
-        "moved_centres": draw(st.sampled_from([False, False, False, True])),
+        "moved_centres": draw(sampled_from([False, False, False, True])),
         # onto the source mesh: the source Grid object itself, or a second Grid of the same nodes and faces (plain, with
         # other face centres supplied, or with its own supplied edge numbering)
-        "twin": draw(st.sampled_from(["object", "object", "twin", "twin-centres", "twin-edges"])) if same else None,
-        "src_edge_seed": draw(st.sampled_from([None, None, 3, 17])),
+        "twin": draw(sampled_from(["object", "object", "twin", "twin-centres", "twin-edges"])) if same else None,
+        "src_edge_seed": draw(sampled_from([None, None, 3, 17])),
         # Cartesian node coordinates supplied on a sphere of this radius (None: lon/lat only)
-        "radius_src": draw(st.sampled_from([None, None, None, 1.0, 2.5, 6371.0])),
-        "radius_dst": draw(st.sampled_from([None, None, None, 1.0, 2.5, 6371.0])),
+        "radius_src": draw(sampled_from([None, None, None, 1.0, 2.5, 6371.0])),
+        "radius_dst": draw(sampled_from([None, None, None, 1.0, 2.5, 6371.0])),
     }
 
 
